@@ -435,6 +435,16 @@ def parse_mir(text, crate):
     i, n = 0, len(lines)
     while i < n:
         ln = lines[i]
+        if ln.startswith('const ') and ln.endswith('= {'):
+            body = ln[6:-4]
+            depth = 0; cut = -1
+            for k, ch in enumerate(body):
+                if ch in '<([': depth += 1
+                elif ch in '>)]' and not (ch == '>' and k > 0 and body[k - 1] == '-'): depth -= 1
+                elif depth == 0 and body.startswith(': ', k):
+                    cut = k; break
+            if cut > 0:
+                ln = f'fn {body[:cut]}() -> {body[cut + 2:]} {{'
         if not ln.startswith('fn '):
             i += 1; continue
         m = HDR.match(ln)
